@@ -205,6 +205,35 @@ fn exec_iter<S: Tbl>(ctx: &mut Ctx, ev: &Ev) {
     });
 }
 
+/// A workload generator, not a monitor: the representative of `a` (computed by the dynamic `Lut`, whatever it
+/// is worth) with random input complementations / output complementation applied by the model — for P
+/// canonization a random transposition instead.  Guarded: if the library panics the original table is used.
+fn directed_input(op: &str, n: usize, a: &[u64], rng: &mut Rng) -> Vec<u64> {
+    let l = Lut::from_blocks(n, a);
+    let rep = match guard(|| match op {
+        "p_canon" => l.p_canonization().0,
+        "n_canon" => l.n_canonization().0,
+        _ => l.npn_canonization().0,
+    }) {
+        Outcome::Returned(r) => r,
+        Outcome::Panicked(_) => return a.to_vec(),
+    };
+    let m = Model::from_blocks(n, rep.blocks());
+    let id: Vec<usize> = (0..n).collect();
+    let img = match op {
+        "p_canon" => {
+            if rng.bool() {
+                m
+            } else {
+                m.swap(rng.below(n), rng.below(n))
+            }
+        }
+        "n_canon" => m.apply_npn(&id, rng.below(1 << n), false),
+        _ => m.apply_npn(&id, rng.below(1 << n), rng.bool()),
+    };
+    img.to_blocks()
+}
+
 fn exec(ctx: &mut Ctx, ev: &Ev) {
     match ev.ty.as_str() {
         "iter" => with_static!(ev.n, S => exec_iter::<S>(ctx, ev)),
@@ -271,6 +300,14 @@ fn main() {
                                 x
                             }
                             _ => gen::any_fam(n, &mut rng).1,
+                        };
+                        // canonizations: half of the time (always for the few expensive ones) the input is a
+                        // representative with only complementations applied, i.e. a function whose representative
+                        // is reached under the identity permutation (1 in n! random inputs is of that kind)
+                        let a = if matches!(*op, "p_canon" | "n_canon" | "npn_canon") && n >= 2 && (n >= 7 || rng.bool()) {
+                            directed_input(op, n, &a, &mut rng)
+                        } else {
+                            a
                         };
                         exec(ctx, &diff_ev(op, n, &a, &b, &mut rng));
                     }
